@@ -1,4 +1,5 @@
 import EIO.Lemmas.PTHist
+import EIO.Lemmas.HbLog
 /-
 C07, "closes with reason ping timeout at that deadline and never before; a client that answers every ping in
 time is never closed for ping timeout" — over whole histories:
@@ -79,6 +80,45 @@ theorem advFirings_cons (fuel : Nat) (w : World) (target d : Nat) (id : TimerId)
     advFirings (fuel + 1) w target =
       (d, id, { w with now := max w.now d }) :: advFirings fuel (fireTimer { w with now := max w.now d } id) target := by
   rw [advFirings, h]
+
+/-- the operations that carry packets a client sends -/
+def Op.fromClient : Op → Bool
+  | .post .. => true
+  | .frame .. => true
+  | _ => false
+
+/-- **a heartbeat is accepted only from a packet the client sent**: no other operation — the clock with all its
+    timers, polls, handshakes, candidates, drops, application calls, writer tasks — logs a `heartbeat` entry; in
+    particular the server's own ping does not count as the peer's answer -/
+theorem c07_heartbeat_only_from_client_packets (w : World) (op : Op) (h : op.fromClient = false) :
+    (step w op).slog.filter (fun e => e.2.isHb) = w.slog.filter (fun e => e.2.isHb) := by
+  have hm : NHm w (step w op) := by
+    unfold step
+    split
+    · exact NHm.refl w
+    · cases op with
+      | hsPolling pr b j => exact nhm_hsPolling _ _ _ _
+      | hsWebsocket pr b => exact nhm_hsWebsocket _ _ _
+      | poll sid ae => exact (nh_pollReq _ _ (NH.refl w)).nhm
+      | post sid bin decl body vj => cases h
+      | abort r => exact (nh_abortReq _ (NH.refl w)).nhm
+      | wsCandidate sid pr b => exact (nh_wsCandidate _ _ _ (NH.refl w)).nhm
+      | hsWt => exact nhm_hsWt _
+      | wtCandidate sid => exact (nh_wtCandidate _ (NH.refl w)).nhm
+      | frame c m => cases h
+      | drop c => exact (nh_wsDrop _ (NH.refl w)).nhm
+      | closeFrame c code => exact (nh_wsDrop _ (nh_setConn _ _ (NH.refl w))).nhm
+      | send sid m c cb pre => exact (nh_appSend _ _ _ _ _ (NH.refl w)).nhm
+      | close sid d => exact (nh_appClose _ _ (NH.refl w)).nhm
+      | shutdown => exact (nh_shutdownFold _ (NH.refl w)).nhm
+      | adv d => exact (nh_advance _ _ (NH.refl w)).nhm
+      | settle => exact (nh_settle _ (NH.refl w)).nhm
+      | observe => exact (nh_observe (NH.refl w)).nhm
+  obtain ⟨added, hl, hn⟩ := hm
+  have : added.filter (fun e => e.2.isHb) = [] := by
+    apply List.filter_eq_nil_iff.2
+    intro e he; simp [hn e he]
+  rw [hl, List.filter_append, this, List.append_nil]
 
 /-- the pending timers do not depend on the clock -/
 theorem dueTimers_now (w : World) (n : Nat) : dueTimers ({ w with now := n } : World) = dueTimers w := rfl
